@@ -104,6 +104,24 @@ def run(ctx):
     mb = ctx.tlc("MC_Indent", cfg="MC_Indent_bug.cfg", workers=4, must_pass=False, label="MC_Indent_bug (must fail)")
     nonvac["MC_Indent_bug.cfg"] = bool(mb.violated)
 
+    # ------------------------------------ indentation: unbounded lemma (TLAPS)
+    if thorough:
+        import shutil
+        import subprocess
+        pd = ctx.path("tlaps")
+        os.makedirs(pd)
+        shutil.copy(os.path.join(vlib.SPEC, "IndentBalance.tla"), pd)
+        try:
+            pr = subprocess.run(["tlapm", "--threads", "8", "IndentBalance.tla"], cwd=pd, stdout=subprocess.PIPE, stderr=subprocess.STDOUT,
+                                text=True, timeout=600)
+            m = re.search(r"All (\d+) obligations? proved", pr.stdout)
+            if not m:
+                raise vlib.MachineryError("tlapm did not prove IndentBalance.tla:\n" + pr.stdout[-1500:])
+            ctx.cover(obligations=int(m.group(1)), discharged=int(m.group(1)),
+                      checker_cmd="tlapm --threads 8 spec/IndentBalance.tla")
+        except subprocess.TimeoutExpired:
+            raise vlib.MachineryError("tlapm timed out on IndentBalance.tla")
+
     # ------------------------------------------ indentation: real token streams
     ninputs = 6000 if thorough else 1200
     ctx.harness(["lex", "corpus", "--n", ninputs, "--out", ctx.path("lexin.ndjson"),
